@@ -286,6 +286,11 @@ class PlugsSupport(object):
           ctx.inst.append('I-:%d:%d' % (idx, self_.serial))
         if beh.get('td') == 'raise':
           raise RuntimeError('plug %d tearDown failure' % idx)
+        if beh.get('td') == 'slow':
+          # takes a little while (well inside its own timeout): another plug's hanging tearDown must not cut it short
+          time.sleep(0.01)
+          with ctx.lock:
+            ctx.inst.append('I~:%d' % idx)
         if beh.get('td') == 'hang':
           while True:
             time.sleep(0.002)
@@ -480,7 +485,8 @@ def run_test_case(case, plugs_factory=None, callbacks=None):
   try:
     conf.load(allow_unset_measurements=bool(case.get('allow')), _override=True)
     if case.get('plugs') is not None:
-      conf.load(plug_teardown_timeout_s=0.05, _override=True)
+      slow = any((b_ or {}).get('td') == 'slow' for b_ in case['plugs'].values())
+      conf.load(plug_teardown_timeout_s=0.4 if slow else 0.05, _override=True)
     box = {}
 
     def _go():
@@ -506,6 +512,9 @@ def run_test_case(case, plugs_factory=None, callbacks=None):
   crashes = [c for c in CRASHES if c != 'ThreadTerminationError']
   rec = recs[0] if recs else None
   toks = canon_record(rec, ctx) if rec is not None else ['O:none']
+  for key, b_ in (case.get('plugs') or {}).items():
+    if (b_ or {}).get('td') == 'slow' and ('eP-%s' % key) in ctx.events and ('I~:%s' % key) not in ctx.inst:
+      toks.append('XF:teardown-of-a-plug-cut-short-by-another-plugs-timeout:%s' % key)
   return {'tokens': toks, 'ret': ret, 'crashes': crashes, 'record': rec, 'ctx': ctx, 'test': test,
           'cb_records': cb_records, 'recs': recs}
 
